@@ -388,7 +388,11 @@ func ruleFixNotStarted(r *Run, rule string) {
 					guarded := false
 					for x := j - 1; x >= 0; x-- {
 						b := p.Ev[x]
-						if b.Kind == EvBranch && b.Taken && b.Cond != nil && strings.Contains(ExprStr(b.Cond), "completed == 0") {
+						// `completed == 0`: a local counter of finished children found zero
+						if Establishes(fl.Info, b, func(x ast.Expr) bool {
+							v, ok := ObjOf(fl.Info, x).(*types.Var)
+							return ok && !v.IsField() && v.Pkg() != nil && v.Parent() != v.Pkg().Scope()
+						}, "int:0", true) {
 							guarded = true
 						}
 					}
@@ -770,12 +774,15 @@ func ruleAgedOut(r *Run, rule string) {
 	for i := range rp {
 		p := &rp[i]
 		for j, e := range p.Ev {
-			if e.Kind == EvBranch && e.Taken && e.Cond != nil && strings.HasSuffix(ExprStr(e.Cond), ".Status == workflow.Running") {
+			if Establishes(rfl.Info, e, fieldMatcher(rfl.Info, "", "Status"), "workflow.Running", true) {
 				seen = true
 				okA := false
 				for x := j + 1; x < len(p.Ev) && p.Ev[x].Kind != EvRange; x++ {
 					a := p.Ev[x]
-					if a.Kind == EvAssign && len(a.Lhs) == 1 && len(a.Rhs) == 1 && strings.HasSuffix(ExprStr(a.Lhs[0]), ".Status") && ValueKey(rfl.Info, a.Rhs[0]) == "workflow.Failed" {
+					if a.Kind != EvAssign || len(a.Lhs) != 1 || len(a.Rhs) != 1 {
+						continue
+					}
+					if _, isStatus := FieldPath(rfl.Info, a.Lhs[0], "", "Status"); isStatus && ValueKey(rfl.Info, a.Rhs[0]) == "workflow.Failed" {
 						okA = true
 					}
 				}
@@ -1546,7 +1553,7 @@ func ruleRecoveryDeferred(r *Run, rule string, m *Machine) {
 						if v, ok := statusTest(fl.Info, e, "workflow.Plan"); ok {
 							st = v
 						}
-						if e.Cond != nil && strings.Contains(ExprStr(e.Cond), "DeferredChecks") {
+						if e.Cond != nil && mentionsField(fl.Info, e.Cond, "DeferredChecks") {
 							deferredDone = true
 						}
 					}
